@@ -55,16 +55,17 @@ inductive OpKind
   | subview (rank : Nat)                 -- memref.subview: args = src :: sizes(rank) ++ other operands (NoMemoryEffect)
   | alloc                                -- memref.alloc: args = all sizes, static ones as literals (MemoryAllocEffect; whitelisted)
   | opaque (f : Nat)                     -- any other op with trait Pure (test.pureop): uninterpreted function
+  | lit (c : Int)                        -- arith.constant of a non-index integer type (Pure; index constants are literals)
   deriving DecidableEq, Repr, Inhabited
 
 /-- `Pure() in op.traits or isinstance(op, memref.AllocOp)` -/
 def OpKind.hoistable : OpKind → Bool
-  | .mul | .add | .divui | .remui | .opaque _ | .alloc => true
+  | .mul | .add | .divui | .remui | .opaque _ | .lit _ | .alloc => true
   | _ => false
 
 /-- `is_side_effect_free` (used by the driver's dead-code step) -/
 def OpKind.dceable : OpKind → Bool
-  | .mul | .add | .divui | .remui | .opaque _ | .dim _ | .subview _ => true
+  | .mul | .add | .divui | .remui | .opaque _ | .lit _ | .dim _ | .subview _ => true
   | _ => false
 
 def dot : List Int → List Int → Int
@@ -92,6 +93,7 @@ def OpKind.apply (I : Nat → List Val → Val) : OpKind → List Val → Val
   | .subview rank, vs => .mem (((vs.drop 1).take rank).map Val.toInt)
   | .alloc, vs => .mem (vs.map Val.toInt)
   | .opaque f, vs => I f vs
+  | .lit c, _ => .int c
 
 inductive Blk
   | nil
@@ -253,12 +255,15 @@ def positiveStep : Blk → Bool
   | _ => false
 
 /-- `MergeForLoops`, anchored at the parent loop; `j` = index of the matched (inner) loop in the parent body.
-There is no perfect-nest check and no sign check in the code, hence none here (D18, DC17a). -/
-def mergeLoops (fresh : Var) (j : Nat) : Blk → Except Err Blk
+There is no perfect-nest check and no sign check in the code, hence none here (D18, DC17a).
+`negGuard = false` is the code as it is; `negGuard = true` is the code with the proposed fix `fixes/FC17a-*.diff`
+(`if ub < 0 or ub_parent < 0: return`). -/
+def mergeLoops (negGuard : Bool) (fresh : Var) (j : Nat) : Blk → Except Err Blk
   | .loop i (.cst lbp) (.cst ubp) (.cst stp) pbody rest =>
     match splitAt j pbody with
     | some (pre, .loop jv (.cst lb) (.cst ub) (.cst st) ibody irest) =>
       if lb ≠ 0 || lbp ≠ 0 || st ≠ 1 || stp ≠ 1 then .error .noMatch
+      else if negGuard && (decide (ub < 0) || decide (ubp < 0)) then .error .noMatch   -- proposed fix FC17a only
       else if fresh = i || fresh = jv || (allVars pbody).contains fresh then .error .sideCond
       else
         .ok (.loop fresh (.cst 0) (.cst (ub * ubp)) (.cst 1)
@@ -285,20 +290,32 @@ def nonNegBoundsAt (j : Nat) : Blk → Bool
 
 /-! ## `reuse-memref-allocs` -/
 
-/-- `LoopHoistPureOperations`, anchored at the innermost enclosing loop; `j` = index of the matched op in its body;
-`bargs` = all block arguments of the function (function arguments and induction variables):
-`defined_outside_loop` refuses every operand that is a block argument. -/
-def hoist (bargs : List Var) (j : Nat) : Blk → Except Err Blk
+/-- moving the value computation at index `j` of the loop body in front of the loop; the checks are exactly what the
+move needs semantically (operands neither the induction variable nor defined earlier in the body) plus SSA side conditions -/
+def hoistCore (j : Nat) : Blk → Except Err Blk
   | .loop iv lb ub st body rest =>
     match splitAt j body with
     | some (pre, .pure d op args suf) =>
-      if !op.hoistable then .error .noMatch
-      else if (argVars args).any (fun v => bargs.contains v || v = iv || (defsTop pre).contains v) then .error .noMatch
+      if (argVars args).any (fun v => v = iv || (defsTop pre).contains v) then .error .noMatch
       else if d = iv || (allVars pre).contains d || (argVars [lb, ub, st]).contains d || (usesOf rest).contains d
         then .error .sideCond
       else .ok (.pure d op args (.loop iv lb ub st (append pre suf) rest))
     | _ => .error .noMatch
   | _ => .error .noMatch
+
+/-- the pattern's own guard: `Pure() in op.traits or alloc`, and `defined_outside_loop` (which additionally refuses every
+operand that is a block argument) -/
+def hoistGuard (bargs : List Var) (j : Nat) : Blk → Bool
+  | .loop _ _ _ _ body _ =>
+    match splitAt j body with
+    | some (_, .pure _ op args _) => op.hoistable && !(argVars args).any (fun v => bargs.contains v)
+    | _ => false
+  | _ => false
+
+/-- `LoopHoistPureOperations`, anchored at the innermost enclosing loop; `j` = index of the matched op in its body;
+`bargs` = all block arguments of the function (function arguments and induction variables). -/
+def hoist (bargs : List Var) (j : Nat) (b : Blk) : Except Err Blk :=
+  if hoistGuard bargs j b then hoistCore j b else .error .noMatch
 
 /-- the greedy driver's dead-code step, anchored at the erased op -/
 def dce : Blk → Except Err Blk
@@ -307,7 +324,39 @@ def dce : Blk → Except Err Blk
   | .loop _ _ _ _ body rest => if deadBody body then .ok rest else .error .noMatch
   | _ => .error .noMatch
 
-/-! ### `MoveMemrefDims` (whole-program function: it follows def-use chains) -/
+/-! ### `MoveMemrefDims`
+
+The pattern follows the def-use chain of the matched `memref.dim` upwards. The model does that on the list of
+definitions that dominate the matched op (`ctxAlong`, collected on the way from the function entry to the op; it also
+checks that the program is in SSA form along that way), so that the chain can be interpreted semantically. -/
+
+/-- a dominating definition `v = op(args)`, with the induction variable of its innermost enclosing loop -/
+structure Fact where
+  v : Var
+  op : OpKind
+  args : List Arg
+  inLoop : Option Var
+  deriving Repr, Inhabited
+
+def factVars : List Fact → List Var
+  | [] => []
+  | f :: r => f.v :: (argVars f.args ++ factVars r)
+
+/-- the definitions dominating position `p` (in order) and the induction variable of the loop enclosing `p`;
+`none` if a name is defined twice / used before its definition on the way (never on verified IR) -/
+def ctxAlong : Blk → List Nat → List Fact → Option Var → Option (List Fact × Option Var)
+  | _, [], _, _ => none
+  | _, [0], acc, cur => some (acc, cur)
+  | .loop iv _ _ _ body _, 0 :: p, acc, _ =>
+    if (factVars acc).contains iv then none else ctxAlong body p acc (some iv)
+  | .pure d op args r, (n + 1) :: p, acc, cur =>
+    if (factVars acc).contains d || (argVars args).contains d then none
+    else ctxAlong r (n :: p) (acc ++ [⟨d, op, args, cur⟩]) cur
+  | .eff _ _ r, (n + 1) :: p, acc, cur => ctxAlong r (n :: p) acc cur
+  | .loop _ _ _ _ _ r, (n + 1) :: p, acc, cur => ctxAlong r (n :: p) acc cur
+  | _, _, _, _ => none
+
+def lookupFact (fs : List Fact) (v : Var) : Option Fact := fs.find? (fun f => f.v == v)
 
 def findDef : Blk → Var → Option (OpKind × List Arg)
   | .nil, _ => none
@@ -326,9 +375,6 @@ def pathOfDef : Blk → Var → Option (List Nat)
     | some p => some (0 :: p)
     | none => (pathOfDef r v).bind (fun p => match p with | n :: q => some ((n + 1) :: q) | [] => none)
 
-/-- `find_parent_for_loop` of a definition: the position of the innermost enclosing loop (`[]` = none) -/
-def loopPathOfDef (prog : Blk) (v : Var) : Option (List Nat) := (pathOfDef prog v).map List.dropLast
-
 /-- every use of `d` is an operand of `memref.alloc` / `memref.subview` -/
 def usesOnlyAllocSubview (d : Var) : Blk → Bool
   | .nil => true
@@ -342,28 +388,28 @@ inductive DimSrc
   | newDim (src : Var) (idx : Nat)        -- dim of a block argument: a new memref.dim is created
   | const (c : Int)                       -- static / constant subview size
   | min (m : Var) (alts : List (Int × List Int))   -- size is an affine.min result
-  | existing (w : Var)                    -- size is a memref.dim defined under another loop
+  | existing (w : Var) (inLoop : Bool)    -- size is a memref.dim defined under another loop (or under none)
   deriving Repr
 
-/-- `dimension_outside_loop` + `get_new_dim_op`: `none` = not movable. `here` = loop position of the matched dim. -/
-def resolveDim (prog : Blk) (bargs : List Var) (here : List Nat) : Nat → Var → Nat → Option DimSrc
+/-- `dimension_outside_loop` + `get_new_dim_op`: `none` = not movable. `here` = loop of the matched dim. -/
+def resolveDim (fs : List Fact) (bargs : List Var) (here : Option Var) : Nat → Var → Nat → Option DimSrc
   | 0, _, _ => none
   | fuel + 1, s, idx =>
-    match findDef prog s with
+    match lookupFact fs s with
     | none => if bargs.contains s then some (.newDim s idx) else none
-    | some (.subview rank, args) =>
+    | some ⟨_, .subview rank, args, _⟩ =>
       if idx < rank then
         match args[idx + 1]? with
         | some (.cst c) => some (.const c)
         | some (.var w) =>
-          match findDef prog w with
-          | some (.amin alts, _) => some (.min w alts)
-          | some (.dim idx2, [.var s2]) =>
-            if loopPathOfDef prog w ≠ some here then some (.existing w) else resolveDim prog bargs here fuel s2 idx2
+          match lookupFact fs w with
+          | some ⟨_, .amin alts, _, _⟩ => some (.min w alts)
+          | some ⟨_, .dim idx2, [.var s2], lw⟩ =>
+            if lw ≠ here then some (.existing w lw.isSome) else resolveDim fs bargs here fuel s2 idx2
           | _ => none
         | none => none
       else none
-    | _ => none
+    | some _ => none
 
 def removeStmt : Blk → Except Err Blk
   | .pure _ _ _ r => .ok r
@@ -371,38 +417,66 @@ def removeStmt : Blk → Except Err Blk
 
 def altIsConst (alt : Int × List Int) : Bool := alt.2.all (· == 0)
 
-/-- `MoveMemrefDims` on the `memref.dim` at `path`. -/
-def moveDim (bargs : List Var) (prog : Blk) (path : List Nat) : Except Err Blk :=
+/-- the matched `d = memref.dim s, idx` is erased and every use (all below it: SSA) becomes the operand `a` -/
+def replaceDimUses (d : Var) (idx : Nat) (s : Var) (a : Arg) : Blk → Except Err Blk
+  | .pure d' (.dim idx') [.var s'] rest =>
+    if d' ≠ d || idx' ≠ idx || s' ≠ s then .error .badPath
+    else if (defsAll rest).contains d || (argVars [a]).any (fun v => v = d || (defsAll rest).contains v) then .error .sideCond
+    else .ok (subst d a rest)
+  | _ => .error .badPath
+
+/-- the matched `d = memref.dim s, idx` becomes `d = memref.dim src, i` -/
+def replaceDimRhs (d : Var) (idx : Nat) (s : Var) (src : Var) (i : Nat) : Blk → Except Err Blk
+  | .pure d' (.dim idx') [.var s'] rest =>
+    if d' ≠ d || idx' ≠ idx || s' ≠ s then .error .badPath
+    else .ok (.pure d (.dim i) [.var src] rest)
+  | _ => .error .badPath
+
+def countOf (v : Var) (l : List Var) : Nat := (l.filter (· == v)).length
+
+/-- `MoveMemrefDims` on the `memref.dim` at `path`.
+`keepDom = false` is the code as it is; `keepDom = true` is the code with the proposed fix `fixes/FC17b-*.diff`
+(an existing dim that already dominates the loop is used where it is instead of being detached and re-inserted). -/
+def moveDim (keepDom : Bool) (bargs : List Var) (prog : Blk) (path : List Nat) : Except Err Blk :=
   match getAt prog path with
-  | some (.pure d (.dim idx) [.var s] _) =>
-    let here := path.dropLast
-    if here.isEmpty then .error .noMatch                     -- is_in_loop
-    else if !usesOnlyAllocSubview d prog then .error .noMatch
-    else
-      match resolveDim prog bargs here (path.length + 64) s idx with
-      | none => .error .noMatch
-      | some (.const c) => applyAt removeStmt (subst d (.cst c) prog) path
-      | some (.min m alts) =>
-        match alts with
-        | alt :: _ =>
-          if altIsConst alt then applyAt removeStmt (subst m (.cst alt.1) (subst d (.cst alt.1) prog)) path
-          else .error .noConstant
-        | [] => .error .noConstant
-      | some (.newDim src i) =>
-        (applyAt removeStmt prog path).bind (fun p1 => applyAt (fun b => .ok (.pure d (.dim i) [.var src] b)) p1 here)
-      | some (.existing w) =>
-        (applyAt removeStmt (subst d (.var w) prog) path).bind (fun p1 =>
-          match loopPathOfDef prog w, pathOfDef prog w, findDef prog w with
-          | some (_ :: _), some pw, some (op, args) =>      -- the existing dim sits in a loop: it is re-inserted before this loop
-            (applyAt (fun b => .ok (.pure w op args b)) p1 here).bind (fun p2 => applyAt removeStmt p2 pw)
-          | _, _, _ => .ok p1)
+  | some (.pure d (.dim idx) [.var s] rest) =>
+    match ctxAlong prog path [] none with
+    | none => .error .sideCond
+    | some (facts, here) =>
+      if here.isNone then .error .noMatch                     -- is_in_loop
+      else if !usesOnlyAllocSubview d prog then .error .noMatch
+      else
+        match resolveDim facts bargs here (facts.length + 1) s idx with
+        | none => .error .noMatch
+        | some r =>
+          if countOf d (usesOf prog) ≠ countOf d (usesOf rest) then .error .sideCond    -- uses outside the scope of `d`
+          else match r with
+          | .const c => applyAt (replaceDimUses d idx s (.cst c)) prog path
+          | .min m alts =>
+            match alts with
+            | alt :: _ =>
+              if altIsConst alt then applyAt removeStmt (subst m (.cst alt.1) (subst d (.cst alt.1) prog)) path
+              else .error .noConstant
+            | [] => .error .noConstant
+          | .newDim src i =>
+            (applyAt (replaceDimRhs d idx s src i) prog path).bind (fun p1 =>
+              applyAt (hoistCore (path.getLastD 0)) p1 path.dropLast)
+          | .existing w inLoop =>
+            if inLoop && !keepDom then
+              -- the existing dim sits in a loop: it is detached and re-inserted in front of this loop (DC17b)
+              (applyAt removeStmt (subst d (.var w) prog) path).bind (fun p1 =>
+                match pathOfDef prog w, findDef prog w with
+                | some pw, some (op, args) =>
+                  (applyAt (fun b => .ok (.pure w op args b)) p1 path.dropLast).bind (fun p2 => applyAt removeStmt p2 pw)
+                | _, _ => .error .sideCond)
+            else applyAt (replaceDimUses d idx s (.var w)) prog path
   | _ => .error .noMatch
 
 /-- what `MoveMemrefDims` resolves the `memref.dim` at `path` to (`none`: no rewrite) -/
 def dimSrcAt (bargs : List Var) (prog : Blk) (path : List Nat) : Option DimSrc :=
-  match getAt prog path with
-  | some (.pure _ (.dim idx) [.var s] _) => resolveDim prog bargs path.dropLast (path.length + 64) s idx
-  | _ => none
+  match getAt prog path, ctxAlong prog path [] none with
+  | some (.pure _ (.dim idx) [.var s] _), some (facts, here) => resolveDim facts bargs here (facts.length + 1) s idx
+  | _, _ => none
 
 /-- clause `NoAffineMinSize`: the size is not the result of an `affine.min` (D24) -/
 def noAffineMinSize (bargs : List Var) (prog : Blk) (path : List Nat) : Bool :=
@@ -413,7 +487,7 @@ def noAffineMinSize (bargs : List Var) (prog : Blk) (path : List Nat) : Bool :=
 /-- clause `NoExistingDimMove`: the size is not an existing `memref.dim` that sits in (another) loop (DC17b) -/
 def noExistingDimMove (bargs : List Var) (prog : Blk) (path : List Nat) : Bool :=
   match dimSrcAt bargs prog path with
-  | some (.existing w) => match loopPathOfDef prog w with | some (_ :: _) => false | _ => true
+  | some (.existing _ true) => false
   | _ => true
 
 /-- all block arguments of a function with `nargs` arguments (named `0 … nargs-1`) -/
@@ -425,5 +499,34 @@ def maxVar : List Var → Nat
 
 /-- a name that occurs nowhere in the program -/
 def freshVar (nargs : Nat) (prog : Blk) : Var := max nargs (maxVar (allVars prog)) + 1
+
+/-! ## rewrite sequences (what the greedy driver produces: any rules, any positions, any order, any length) -/
+
+/-- ChangeForStep (F03) on a loop whose constant step is positive -/
+def changeStepG (fresh : Var) (b : Blk) : Except Err Blk :=
+  if positiveStep b then changeStep true fresh b else .error .noMatch
+
+/-- MergeForLoops under the clauses `PerfectNest` and `NonNegBounds` -/
+def mergeLoopsG (negGuard : Bool) (fresh : Var) (j : Nat) (b : Blk) : Except Err Blk :=
+  if perfectNestAt j b && nonNegBoundsAt j b then mergeLoops negGuard fresh j b else .error .noMatch
+
+/-- one step of `pipeline-canonicalize-for` inside the clauses, at any position -/
+def CanonStep (negGuard : Bool) (p q : Blk) : Prop :=
+  ∃ path, (∃ fresh, applyAt (changeStepG fresh) p path = .ok q)
+    ∨ (∃ fresh j, applyAt (mergeLoopsG negGuard fresh j) p path = .ok q)
+    ∨ applyAt dce p path = .ok q
+
+/-- one step of `reuse-memref-allocs` inside the clauses, at any position (`nargs` = number of function arguments) -/
+def ReuseStep (keepDom : Bool) (nargs : Nat) (p q : Blk) : Prop :=
+  ∃ path, (∃ j, applyAt (hoist (List.range nargs ++ ivsOf p) j) p path = .ok q)
+    ∨ applyAt dce p path = .ok q
+    ∨ (moveDim keepDom (List.range nargs ++ ivsOf p) p path = .ok q
+        ∧ noAffineMinSize (List.range nargs ++ ivsOf p) p path = true
+        ∧ (keepDom = true ∨ noExistingDimMove (List.range nargs ++ ivsOf p) p path = true))
+
+/-- reflexive-transitive closure -/
+inductive Star (R : Blk → Blk → Prop) : Blk → Blk → Prop
+  | refl (p : Blk) : Star R p p
+  | step {p q r : Blk} : R p q → Star R q r → Star R p r
 
 end SnaxVerif.Loops
